@@ -76,7 +76,7 @@ impl Prop for C17 {
             Tier::Quick => self.stored4.len() * self.req6.len(),
             Tier::Thorough => self.stored5.len() * self.req7.len(),
         } as u64;
-        vec![ph("stored-list x requested-list enumeration", n), ph("manifold product rule", tier.pick(20_000, 1_000_000))]
+        vec![ph("stored-list x requested-list enumeration", n), ph("manifold product rule", tier.pick(20_000, 5_000_000))]
     }
     fn exhaustive(&self, _tier: Tier) -> bool {
         true
